@@ -96,4 +96,62 @@ theorem C08_wiring :
     Sso.Generated.skel_auth_ValidateToken =
       ["call:Get", "if{", "call:append", "call:Incr", "call:WriteHeader", "return", "}", "call:ValidateSessionState", "if{", "call:append", "call:Incr", "call:WriteHeader", "return", "}", "call:WriteHeader", "return"] := by decide
 
+/-- **The other three back-channel endpoints say only what the provider said.** `/refresh` answers 201 with a token exactly
+when the provider refreshed, and then with *that* token and lifetime; `/validate` answers 200 exactly when a token was
+presented and the provider accepts it; `/profile` returns the e-mail asked about with exactly the provider's groups. With the
+required parameter missing the provider is not even asked. -/
+theorem C08_backchannel_echoes_provider :
+    (∀ rt p tok ttl, (refreshH rt p).1 = .refreshed tok ttl ↔ rt ≠ "" ∧ p = .ok (tok, ttl)) ∧
+    (∀ at' ok, (validateH at' ok).1 = .status 200 ↔ at' ≠ "" ∧ ok = true) ∧
+    (∀ em m gs e, (profileH em m).1 = .profile e gs ↔ em ≠ "" ∧ e = em ∧ m = .ok gs) ∧
+    (∀ p, (refreshH "" p).2 = []) ∧ (∀ ok, (validateH "" ok).2 = []) ∧ (∀ m, (profileH "" m).2 = []) := by
+  refine ⟨?_, ?_, ?_, ?_, ?_, ?_⟩
+  · intro rt p tok ttl
+    unfold refreshH
+    by_cases h : rt = ""
+    · simp [h]
+    · cases p with
+      | error e => simp [h]
+      | ok q => obtain ⟨t, l⟩ := q; simp [h]
+  · intro at' ok
+    unfold validateH
+    by_cases h : at' = ""
+    · simp [h]
+    · cases ok <;> simp [h]
+  · intro em m gs e
+    unfold profileH
+    by_cases h : em = ""
+    · simp [h]
+    · cases m with
+      | error x => simp [h]
+      | ok g => simp [h]; intro _; exact ⟨fun a => a.symm, fun a => a.symm⟩
+  · intro p; simp [refreshH]
+  · intro ok; simp [validateH]
+  · intro m; simp [profileH]
+
+/-- `/profile` at Okta names a group only if it was asked about **and** the identity provider lists it for the token's
+user; without a token the provider is not called. -/
+theorem C08_profile_names_only_asked_and_vouched_groups (allowed : List String) (access : String) (ui : Except PErr (List String)) (gs : List String)
+    (h : (oktaMembership allowed access ui).1 = .ok gs) :
+    access ≠ "" ∧ ∀ g ∈ gs, g ∈ allowed ∧ ∃ us, ui = .ok us ∧ g ∈ us := by
+  unfold oktaMembership at h
+  by_cases ha : access = ""
+  · simp [ha] at h
+  · refine ⟨ha, ?_⟩
+    simp only [ha, if_false] at h
+    by_cases hl : allowed = []
+    · simp [hl] at h; subst h; simp
+    · simp only [hl, if_false] at h
+      cases ui with
+      | error e => simp at h
+      | ok us =>
+        simp only at h
+        by_cases hu : us = []
+        · simp [hu] at h
+        · simp only [hu, if_false] at h
+          cases h
+          intro g hg
+          simp only [List.mem_filter] at hg
+          exact ⟨hg.1, us, rfl, by simpa using hg.2⟩
+
 end Sso.AuthN
